@@ -123,7 +123,9 @@ func c13bound(in []byte) uint64 { return 1<<20 + 64*uint64(len(in)) }
 
 func c13isLenType(b byte) bool { return strings.IndexByte("$!=*~>%|;", b) >= 0 }
 
-// c13risky: a run of >= 8 digits right after a length-carrying type byte (optional '-').
+// c13risky: a run of >= 8 digits right after a length-carrying type byte (optional '-')
+// whose line is terminated by a later LF (the decoder parses number lines only
+// once the LF has arrived: resp.go readI uses ReadSlice('\n')).
 func c13risky(in []byte) bool {
 	for i := 0; i < len(in); i++ {
 		if !c13isLenType(in[i]) {
@@ -137,7 +139,7 @@ func c13risky(in []byte) bool {
 		for k < len(in) && in[k] >= '0' && in[k] <= '9' {
 			k++
 		}
-		if k-j >= 8 {
+		if k-j >= 8 && bytes.IndexByte(in[k:], '\n') >= 0 {
 			return true
 		}
 	}
@@ -329,7 +331,14 @@ func c13runChild(jobs []c13job) ([]c13jobRes, error) {
 	copy(pending, jobs)
 	for start < len(jobs) {
 		sub := make([]c13jobRes, len(jobs)-start)
+		ts := time.Now()
 		dj, dfn, fatal, err := c13spawn(pending[start:], sub)
+		if os.Getenv("C13_DEBUG") != "" {
+			fmt.Fprintf(os.Stderr, "  spawn %d jobs: died at %d/%d (%s) in %.2fs\n", len(pending)-start, dj, dfn, fatal, time.Since(ts).Seconds())
+			if dj >= 0 {
+				fmt.Fprintf(os.Stderr, "    input %q\n", pending[start+dj].In)
+			}
+		}
 		if err != nil {
 			return nil, err
 		}
@@ -556,7 +565,9 @@ func TestVerif_C13(t *testing.T) {
 		}
 		rawDepth := vrun.Pick(r, 4, 5)
 		lineDepth := vrun.Pick(r, 3, 4)
-		hugeLineDepth := vrun.Pick(r, 2, 3)
+		hugeLineDepth := vrun.Pick(r, 1, 2)
+		hugeRawPos := vrun.Pick(r, 2, 3)
+		r.Bounds["raw_max_position_of_2^30_token"] = hugeRawPos
 		r.Bounds["raw_tokens_max"] = rawDepth
 		r.Bounds["line_tokens_max"] = lineDepth
 		r.Bounds["line_tokens_max_for_2^30"] = hugeLineDepth
@@ -572,7 +583,12 @@ func TestVerif_C13(t *testing.T) {
 		rawTokens := []string{"+", "-", ":", "$", "_", "#", ",", "(", "!", "=", "*", "~", "%", ">", "|", ";", ".", "X",
 			"0", "1", "7", "-1", "-2", "-9223372036854775808", "9223372036854775807", "99999999999999999999", "1073741824", "65536", "?",
 			"\r\n", "\r", "\n", "ab"}
-		s.explore("raw", rawTokens, func(string) int { return 1 << 30 }, rawDepth, sizes)
+		s.explore("raw", rawTokens, func(tok string) int {
+			if tok == "1073741824" { // every 1 GiB allocation costs about a second in the child: bound its position
+				return hugeRawPos
+			}
+			return 1 << 30
+		}, rawDepth, sizes)
 
 		// ---- layer line
 		var lineTokens []string
